@@ -181,22 +181,26 @@ Definition proutine (par : N) (oracle : nat -> panswer) (s : pstate) : pstate * 
   else
     let '(keep, n, ev) := sweep (a_proc a) (p_chunks s) in
     let proc' := p_proc s + n in
-    if a_susp a then (mkP (p_req s) proc' keep false run', PDone false :: ev ++ [PSusp true])
+    if a_susp a then (mkP (p_req s) proc' keep (p_done s) run', PDone false :: ev ++ [PSusp true])
     else if p_req s <? proc' + par then
       let k := proc' + par - p_req s in
-      (mkP (p_req s + k) proc' keep false run', PDone false :: ev ++ [PSusp false; PReq k])
-    else (mkP (p_req s) proc' keep false run', PDone false :: ev ++ [PSusp false]).
+      (mkP (p_req s + k) proc' keep (p_done s) run', PDone false :: ev ++ [PSusp false; PReq k])
+    else (mkP (p_req s) proc' keep (p_done s) run', PDone false :: ev ++ [PSusp false]).
 
-(* one iteration of loop() *)
+(* one iteration of loop().  The chunk branch checks d.done; the ticker branch does not: after
+   Terminate() has closed quit, select may still pick a ticker that has fired, and routine()
+   runs once more (found by trace validation against the real ticker).  The model therefore
+   lets a tick run routine() in every state; that the loop eventually leaves through quit is
+   not modelled (it only removes behaviours). *)
 Definition pstep (par : N) (oracle : nat -> panswer) (s : pstate) (o : pop) : pstate * list pev :=
-  if p_done s then (s, [])
-  else match o with
-       | PChunk id =>
-           if N.of_nat (length (p_chunks s)) <? par * 2 then
-             proutine par oracle (mkP (p_req s) (p_proc s) (p_chunks s ++ [id]) (p_done s) (p_run s))
-           else (s, [])
-       | PTick => proutine par oracle s
-       end.
+  match o with
+  | PChunk id =>
+      if p_done s then (s, [])
+      else if N.of_nat (length (p_chunks s)) <? par * 2 then
+        proutine par oracle (mkP (p_req s) (p_proc s) (p_chunks s ++ [id]) (p_done s) (p_run s))
+      else (s, [])
+  | PTick => proutine par oracle s
+  end.
 
 Fixpoint prun (par : N) (oracle : nat -> panswer) (s : pstate) (ops : list pop) : pstate * list pev :=
   match ops with
